@@ -5,6 +5,7 @@
 -/
 import Netpoll.Conn.LifeLemmasAll
 import Netpoll.Conn.LifeLemmasQAll
+import Netpoll.Conn.LifeLemmasRAll
 import Netpoll.Conn.LifeMonoAll
 import Netpoll.Conn.LifeQuiesce
 namespace Netpoll.Conn.Life
@@ -13,6 +14,12 @@ theorem reach_good {s : S} (h : Reachable s) : Good s ∧ GoodQ s := by
   induction h with
   | init sv oc od orr => exact ⟨good_init sv oc od orr, goodq_init sv oc od orr⟩
   | step a _ hs ih => exact ⟨good_step _ _ a ih.1 hs, goodq_step _ _ a ih.1 ih.2 hs⟩
+
+theorem reach_goodr {s : S} (h : Reachable s) : Good s ∧ GoodQ s ∧ GoodR s := by
+  induction h with
+  | init sv oc od orr => exact ⟨good_init sv oc od orr, goodq_init sv oc od orr, goodr_init sv oc od orr⟩
+  | step a _ hs ih =>
+    exact ⟨good_step _ _ a ih.1 hs, goodq_step _ _ a ih.1 ih.2.1 hs, goodr_step _ _ a ih.1 ih.2.1 ih.2.2 hs⟩
 
 /-- running a list of actions from a reachable state stays reachable -/
 theorem reach_run {s s' : S} (as : List Act) (h : Reachable s) (hr : run s as = some s') : Reachable s' := by
@@ -39,6 +46,12 @@ theorem quiescent_idle (s : S) (hq : Quiescent s) :
   have := q_cbF4 s hq; have := q_cbF4n s hq; have := q_cbF4b s hq; have := q_cbFx s hq
   have := q_hPc_13 s hq; have := q_hPc_14 s hq; have := q_hPc_15 s hq; have := q_hPc_16 s hq
   simp only [S.lockedTasks, S.cbActive, S.closersPending]
+  omega
+
+/-- … the poller is not between an acknowledgement and its lock attempt, SetOnRequest is not half done -/
+theorem quiescent_idle2 (s : S) (hq : Quiescent s) :
+    ¬(s.pPc = 4 ∨ s.pPc = 5) ∧ ¬(s.sPc = 1 ∨ s.sPc = 2 ∨ s.sPc = 3) := by
+  have := q_pPc_4 s hq; have := q_pPc_5 s hq; have := q_sPc_1 s hq; have := q_sPc_2 s hq; have := q_sPc_3 s hq
   omega
 
 end Netpoll.Conn.Life
